@@ -349,13 +349,9 @@ func setup(r *rig.Rig) (*env, error) {
 	if err := e.broker.Start(); err != nil {
 		return nil, err
 	}
-	for i := 0; i < 200; i++ {
-		c, err := net.DialTimeout("tcp", fmt.Sprintf("127.0.0.1:%d", bport), 100*time.Millisecond)
-		if err == nil {
-			c.Close()
-			break
-		}
-		time.Sleep(20 * time.Millisecond)
+	if !vstat.WaitListener(e.broker.Process.Pid, bport, 15*time.Second) {
+		e.broker.Process.Kill()
+		return nil, fmt.Errorf("the broker binary does not listen on port %d (taken by another process after it was picked?)", bport)
 	}
 	// reverse proxy in front of the broker for the client's requests
 	target, _ := url.Parse(fmt.Sprintf("http://127.0.0.1:%d/", bport))
@@ -434,6 +430,10 @@ func (e *env) startServerBinary(r *rig.Rig) error {
 		return fmt.Errorf("server binary did not finish its set-up")
 	}
 	e.serverAddr = fmt.Sprintf("127.0.0.1:%d", port)
+	if !vstat.WaitListener(cmd.Process.Pid, port, 15*time.Second) {
+		cmd.Process.Kill()
+		return fmt.Errorf("the server binary does not listen on port %d (taken by another process after it was picked?)", port)
+	}
 	for i := 0; i < 200; i++ {
 		c, err := net.DialTimeout("tcp", e.serverAddr, 100*time.Millisecond)
 		if err == nil {
